@@ -117,6 +117,13 @@ def compare_outcomes(m, impl_res):
         cls = impl_res[1]
         if cls == "Hang":
             return {"agree": True, "kind": "impl-hang", "detail": None}
+        if cls == "Exception" and m[0] == "ok" and "_produce_output" in (impl_res[2] if len(impl_res) > 2 else ""):
+            # rdflib refuses to print an IRI holding one of <>" {}|\^` (term.py: _is_valid_uri): the graph was built,
+            # the Turtle writer raised.  Accepted only when the model's graph does hold such an IRI.
+            bad = [r for r in m[2] for k, v in ((r[0], r[1]), ("I", r[2]), (r[3], r[4]), ("I", r[5] or "x"))
+                   if k == "I" and any(ch in v for ch in '<>" {}|\\^`')]
+            if bad:
+                return {"agree": True, "kind": "rdflib-refuses-invalid-iri", "detail": None}
         if m[0] in ("err", "runerr") and m[1] == cls:
             where = impl_res[2] if len(impl_res) > 2 else ""
             if m[0] == "err" and "shacl_serializer" not in where and where:
